@@ -332,6 +332,75 @@ def unit(p, item, tier, seed):
             check_case(p, case, rnd)
 
 
+def linear_unit(p, item, tier, seed):
+    """Sizes beyond the direct bit-vector query: block lemmas + integer conservation (checks/c08_lin.py)."""
+    from checks import c08_lin
+
+    case = item
+    probs, stats, wit = c08_lin.sum_conservation(p, case, block_timeout_ms=120000)
+    desc = {k: (v if k != "weights" else f"{len(v)} weights <= {max(v)}") for k, v in case.items()}
+    p.case(("c07-lin", repr(sorted((k, repr(v)) for k, v in case.items()))), sample=f"linear conservation {desc}: {stats}")
+    for k, v in stats.items():
+        p.count(f"lin_{k}", v)
+    n_new = stats["gates"] - stats["inputs"]
+    bound = count_bound(case, stats["inputs"], stats["outputs"], n_new)
+    structural = []
+    if bound is not None and n_new > bound:
+        structural.append(f"{n_new} gates added, documented bound is {bound}")
+    hard = [x for x in probs if "inconclusive" not in x]
+    for x in probs:
+        if "inconclusive" in x:
+            p.inconclusive.append(f"{desc}: {x}")
+    replay = (REPLAY_PRELUDE + "from checks import c07, c08_lin\n" + f"case={case!r}\nassign={{assign}}\n"
+              "got, want = c08_lin.concrete_sum(case, assign)\n"
+              "from cirbo.core.circuit import Circuit\n"
+              "c = Circuit.bare_circuit(sum(case['widths']), prefix='in'); labs=list(c.inputs); ops=[]; k=0\n"
+              "for w in case['widths']:\n    ops.append(labs[k:k+w]); k+=w\n"
+              "outs, ins, flags = c07._invoke(case, c, ops)\nn_new=len(c.gates)-len(labs)\n"
+              "b=c07.count_bound(case, len(ins), len(outs), n_new)\n"
+              "print(got, want, n_new, b)\nsys.exit(1 if got != want or (b is not None and n_new > b) else 0)\n")
+    n_inputs = sum(case["widths"])
+    if structural:
+        p.violation(f"sum:{key_of(case)}:{structural[0].split(' ')[0]}:wide", f"{desc}: {structural}", replay.format(assign=[False] * n_inputs))
+        return
+    if not hard:
+        if p.canaries_run < 1 and stats["blocks"]:
+            p.canary(c08_lin.sum_conservation(p, case, drop_block=0)[2] is not None)
+        return
+    cands = []
+    if wit is not None:
+        cands.append([wit[f"in{i}"] if f"in{i}" in wit else False for i in range(n_inputs)])
+        cands[0] = list(wit.values())
+    rnd = random.Random(7)
+    cands += [[True] * n_inputs] + [[rnd.random() < q for _ in range(n_inputs)] for q in (0.5, 0.8, 0.2) for _ in range(100)]
+    for assign in cands:
+        got, want = c08_lin.concrete_sum(case, assign)
+        if got != want:
+            p.violation(f"sum:{key_of(case)}:sum:wide", f"{desc}: {hard[:2]}; a concrete assignment gives {got} instead of {want}", replay.format(assign=assign))
+            return
+    p.inconclusive.append(f"linear conservation of {desc} failed ({hard[0]}) but no concrete wrong sum was found")
+    p.queries["unknown"] += 1
+
+
+def linear_cases(thorough, rnd):
+    cases = []
+    for n in ((33, 64, 100, 257) if not thorough else (33, 40, 63, 64, 65, 100, 128, 257, 500, 1000)):
+        cases.append(dict(fn="add_sum_n_bits", widths=[n], basis="enum:XAIG", big_endian=bool(n % 2)))
+        cases.append(dict(fn="add_sum_n_bits", widths=[n], basis="str:aig" if "str:aig" in BASES else "enum:AIG"))
+        cases.append(dict(fn="add_sum_pow2_m1", widths=[n], basis="enum:XAIG"))
+    cases.append(dict(fn="add_sum_n_bits_easy", widths=[100], big_endian=True))
+    for n, wmax in ((60, 6), (120, 9), (300, 20)) + (((500, 40), (1000, 12)) if thorough else ()):
+        ws = [rnd.randint(0, wmax) for _ in range(n)]
+        for fn in ("add_sum_n_weighted_bits", "add_sum_n_weighted_bits_naive"):
+            for basis in ("enum:XAIG", "enum:AIG"):
+                cases.append(dict(fn=fn, widths=[n], weights=ws, basis=basis))
+    for a, b in ((100, 100), (64, 9), (9, 64), (33, 32)) + (((256, 256), (500, 3)) if thorough else ()):
+        cases.append(dict(fn="add_sum_two_numbers", widths=[a, b], big_endian=bool((a + b) % 2)))
+        for sh in (0, 1, min(a, b), max(a, b) + 3):
+            cases.append(dict(fn="add_sum_two_numbers_with_shift", widths=[a, b], shift=sh, big_endian=bool(sh % 2)))
+    return cases
+
+
 def run(rep, tier, seed, only=None):
     symeval.install()
     rep.functions = ["summation.add_sum_n_bits/_add_sum_n_bits/_add_sum_n_bits_aig/add_sum_n_bits_easy", "add_sum2/add_sum3/add_sum2_aig/add_sum3_aig/add_mdfa/add_simplified_mdfa/add_stockmeyer_block",
@@ -340,7 +409,7 @@ def run(rep, tier, seed, only=None):
     rep.bounds = {"bit count n": "<= 32", "weighted sums": "all weight vectors n<=3,w<=2 (quick) / n<=4,w<=3 (thorough); seeded n<=20 (quick) / <=40 (thorough), weights <= 8",
                   "two-number adders": "all widths <= 6 (quick) / <= 10 (thorough), every shift 0..n+3; widths 16..64 spot",
                   "basis spellings": BASES, "hosts": "fresh inputs / arbitrary gates of a host circuit / repeated gate"}
-    rep.outside = ["n = 64 bit count (z3 does not finish in 300 s)", "unbounded n: only the listed widths are claimed",
+    rep.outside = ["monolithic bit-vector identity for bit counts above 32 (z3 does not finish n = 64 in 300 s; those sizes are decided compositionally, hosts = fresh inputs only)", "unbounded n: only the listed widths are claimed",
                    "the naive weighted sum is held to the weaker of its two documented bounds (5n-2m)"]
     rep.rule = "case = (generator, widths/weights, basis spelling, endianness, host kind); operand values quantified by z3 (bit-vector identity)"
     rep.explanation = "z3 decides the bit-vector sum identity for all operand values per enumerated configuration; structural predicates (fresh gates only, basis, counts, distinct levels) per instance"
@@ -351,3 +420,8 @@ def run(rep, tier, seed, only=None):
     rnd.shuffle(cases)
     chunks = [dict(seed=seed * 1000 + i, cases=cases[i::64]) for i in range(64)]
     rep.pmap(unit, [c for c in chunks if c["cases"]])
+    if only is None or "linear" in only:
+        rep.pmap(linear_unit, linear_cases(tier == "thorough", random.Random(seed + 11)))
+        rep.bounds["wide sums (linear conservation)"] = ("bit counts 33..257 (quick) / ..1000 (thorough), weighted sums of 60..300 (..1000) bits, adders up to 100+100 (256+256), every shift class: "
+                                                         "each inner block (MDFA, simplified MDFA, Stockmeyer, half/full adder, pair-forming/dissolving gates) exact by a bit-vector query over its real gates, "
+                                                         "then one integer query: the block equations imply sum 2^lev*out == sum 2^w*in; gate-count bounds checked at these sizes too")
